@@ -201,7 +201,7 @@ def splitBar (impl : String) : String × String :=
 /-- finish a manager op: apply token callbacks to the routing model, print, run the monitors -/
 def finM (s : St) (m' : Manager) (head : String) (evs : List Ev) (implEvs : List Ev) (sameCanon : Bool)
     (impl : ImplM) (rcv : Option Nat) (closing : Bool) (tags : List String) (extra : List Fail)
-    (implHead : String := "") (pathRetire : Bool := false) : St × StepOut :=
+    (implHead : String := "") : St × StepOut :=
   let r' := evs.foldl Routing.applyM s.r
   let shown := if sameCanon then implEvs else evs
   let model := s!"{head} ev={fmtEvs shown}" ++ fmtM m' r'
@@ -217,12 +217,7 @@ def finM (s : St) (m' : Manager) (head : String) (evs : List Ev) (implEvs : List
     prevU := impl.inUse, retired := s.mg.retired ++ retiredIn implEvs,
     received := (match rcv with | some x => if s.mg.received.contains x then s.mg.received else x :: s.mg.received | none => s.mg.received),
     reg := reg, closed := closed, tainted := s.mg.tainted || back, lastPer := impl.per,
-    dead := s.mg.dead || closed || implHead.startsWith "E:" || implHead.startsWith "PANIC",
-    maxProbing := (impl.p.map (·.2.1)).foldl max s.mg.maxProbing,
-    lastProbing := (match (impl.p.map (·.2.1)).find? (fun x => !s.mg.prevProbing.contains x) with
-                    | some x => some x | none => s.mg.lastProbing),
-    prevProbing := impl.p.map (·.2.1),
-    pathRetired := if pathRetire then s.mg.pathRetired ++ retiredIn implEvs else s.mg.pathRetired }
+    dead := s.mg.dead || closed || implHead.startsWith "E:" || implHead.startsWith "PANIC" }
   ({ s with m := some m', r := r', mg := mg' }, { model := model, tags := tags, fails := lf ++ tf ++ pf ++ extra })
 
 def gFinish (s : St) (g' : Option Generator) (r' : Routing) (head : String) (evText : String) (gg' : GGhost)
@@ -336,7 +331,7 @@ def stepCore (s : St) (op impl : String) : St × StepOut :=
     let (s, m) := s.ensureM
     let (m', evs, res) := m.retireConnIDForPath (natOf p)
     finM s m' (fmtRes res) evs implEvs false im none false
-      [if res == .panic then "retirepath:panic" else if evs.isEmpty then "retirepath:none" else "retirepath:retire"] [] implHead true
+      [if res == .panic then "retirepath:panic" else if evs.isEmpty then "retirepath:none" else "retirepath:retire"] [] implHead
   | ["hsdone"] =>
     let (s, m) := s.ensureM
     finM s m.setHandshakeComplete "ok" [] implEvs false im none false ["hsdone"] []
